@@ -29,19 +29,25 @@ Step(v) == /\ l' = l + 1
            /\ PubResult(viol', l')
 Upd(f, k, v) == [x \in (DOMAIN f) \cup {k} |-> IF x = k THEN v ELSE f[x]]
 
+RECURSIVE MsgBytes(_)
+MsgBytes(ss) == IF Len(ss) = 0 THEN << >> ELSE PatBytes(ss[1][1], ss[1][2], ss[1][4]) \o MsgBytes(Tail(ss))
+
 TInit == l = 1 /\ mst = << >> /\ rst = << >> /\ viol = << >> /\ PubResult(<< >>, 1)
 
 \* ---------------------------------------------------------------- multi-hash
 TMhInit ==
   /\ IsEv("MhInit") /\ UNCHANGED rst
   /\ LET e == Tr[l] IN
-     /\ mst' = Upd(mst, e.sid, [alg |-> e.alg, fam |-> e.fam, seed |-> FromHex(e.seed), msg |-> << >>, ok |-> e.obs.fault = 0])
+     /\ mst' = Upd(mst, e.sid, [alg |-> e.alg, fam |-> e.fam, seed |-> FromHex(e.seed), segs |-> << >>, big |-> FALSE, n |-> 0,
+                                ok |-> e.obs.fault = 0])
      /\ Step(Chk(e.rc = 0, "C16", "mh-init-rc", l, << e.alg, e.fam, e.rc >>) \o MachineChecks(e, e.fam))
 
 TMhUpdate ==
   /\ IsEv("MhUpdate") /\ UNCHANGED rst
   /\ LET e == Tr[l]  s == mst[e.sid] IN
-     /\ mst' = [mst EXCEPT ![e.sid] = [s EXCEPT !.msg = s.msg \o PatBytes(e.data[1], e.data[2], e.data[3]),
+     \* the stream is the list of segments <<buffer, offset, length hi, length lo>> (length = hi * 2^20 + lo)
+     /\ mst' = [mst EXCEPT ![e.sid] = [s EXCEPT !.segs = Append(s.segs, e.data), !.big = s.big \/ e.data[3] > 0 \/ s.n + e.data[4] > 65536,
+                                                !.n = IF e.data[3] > 0 THEN s.n ELSE s.n + e.data[4],
                                                 !.ok = s.ok /\ e.obs.fault = 0]]
      /\ Step(Chk(e.rc = 0, "C16", "mh-update-rc", l, << s.alg, s.fam, e.rc >>) \o MachineChecks(e, s.fam))
 
@@ -50,12 +56,15 @@ TMhFinal ==
   /\ IsEv("MhFinal") /\ UNCHANGED << mst, rst >>
   /\ LET e == Tr[l]  s == mst[e.sid]
          inner == IF s.alg = "sha256" THEN "sha256" ELSE "sha1"
-         info == << s.alg, s.fam, Len(s.msg) >>
+         info == << s.alg, s.fam, s.segs >>
+         \* short streams: the TLA+ definition evaluated on the bytes; long streams (>= 64 KiB, up to 2^32): the streaming
+         \* primitive, which PrimSelfTest ties to the definition
+         msg == IF s.big THEN << >> ELSE MsgBytes(s.segs)
      IN Step(IF ~s.ok \/ e.obs.fault # 0 THEN MachineChecks(e, s.fam)
-             ELSE LET exp == ToHex(MhDigest(inner, s.msg))
+             ELSE LET exp == ToHex(IF s.big THEN MhDigestOfSegs(inner, s.segs) ELSE MhDigest(inner, msg))
                   IN    Chk(e.dig = exp, Prop(s.alg), "mh-digest", l, info \o << e.dig, exp >>)
                      \o (IF s.alg = "murmur"
-                         THEN LET m == ToHex(Murmur3x64128(s.msg, s.seed))
+                         THEN LET m == ToHex(IF s.big THEN Murmur3OfSegs(s.segs, s.seed) ELSE Murmur3x64128(msg, s.seed))
                               IN Chk(e.mur = m, "C10", "murmur-digest", l, info \o << ToHex(s.seed), e.mur, m >>)
                          ELSE << >>)
                      \o Chk(e.rc = 0, "C16", "mh-final-rc", l, info \o << e.rc >>)
